@@ -251,6 +251,16 @@ def run(c):
     c.trusted += ["Base/Calendar.v hand-written calendar (Hinnant's civil-from-days), proved a floor for all t; tied to DuckDB DATE_TRUNC by correspondence",
                   "Model/Single.v + Sem.Trunc as the model of the <dim>__<gran> CTE columns and of base-granularity truncation of a bare time dimension; Model/TimeDim.v hand-written model of the default-time-dimension step",
                   "DuckDB 1.3.2 as oracle (DATE_TRUNC, INTERVAL arithmetic); other dialects' DATE_TRUNC renderings are not covered (C14)"]
+    import os
+    from translator import gen_timedim
+    try:
+        lib.write_if_changed(os.path.join(lib.COQ, "Gen", "TimeDim_gen.v"), gen_timedim.generate(lib.REPO))
+        c.obligation("translator: behaviour table of _apply_default_time_dimensions (1008 scripted scenarios) regenerated", True, "translator")
+        same = gen_timedim.table(lib.REPO) == gen_timedim.real_table(lib.REPO)
+        c.obligation("translator validation: interpreted _apply_default_time_dimensions == the real method under CPython on the same scenarios", same, "translator")
+    except Exception as e:
+        c.obligation("translator: behaviour table of _apply_default_time_dimensions regenerated", False, "translator", repr(e)[-900:])
+    c.trusted.append("translator/pyinterp.py + gen_timedim.py (fail-closed definitional interpreter; validated against CPython each run)")
     c.build_props()
     n_pts, _ = c09.calendar_tie(c, 2000 if c.tier == "quick" else 40000)
     if c.tier == "thorough":
